@@ -390,6 +390,10 @@ impl Xot {
             ));
         }
         self.add_structure_check(self.parent(reference_node), new_sibling)?;
+        // the node already is where it is asked to be
+        if self.next_sibling(reference_node) == Some(new_sibling) {
+            return Ok(());
+        }
         self.remove_consolidate_text_nodes(
             self.previous_sibling(new_sibling),
             self.next_sibling(new_sibling),
@@ -423,6 +427,10 @@ impl Xot {
             ));
         }
         self.add_structure_check(self.parent(reference_node), new_sibling)?;
+        // the node already is where it is asked to be
+        if self.previous_sibling(reference_node) == Some(new_sibling) {
+            return Ok(());
+        }
         self.remove_consolidate_text_nodes(
             self.previous_sibling(new_sibling),
             self.next_sibling(new_sibling),
